@@ -81,6 +81,13 @@ func TestC01Rapid(t *testing.T) {
 	foreignWarmup("qr")
 	st := NewStats("C01", "rapid")
 	runRapid(t, st, func(rt *rapid.T) {
+		if rapid.IntRange(0, 11).Draw(rt, "seek") == 0 {
+			for _, c := range genQRSeek(rt) {
+				c01Account(st, c, checkQRRoundTrip(rt, c))
+				st.Class("around a size transition of the implementation (found by bisection)")
+			}
+			return
+		}
 		c := genQRCase(rt)
 		res := checkQRRoundTrip(rt, c)
 		c01Account(st, c, res)
